@@ -211,7 +211,7 @@ void harness (void)
   POST (IMP (n > 0, got == D[hit] && m == n - 1 && g_link_frees == 1 && g_freed[hit] == 1 && g_foreign_frees == 0), WHO ": returns the data of the first resp. last element and releases exactly that link");
   POST (IMP (n > 0, (hit == 0 || AT (0, 0)) && (n < 2 || hit == 1 || AT (hit < 1 ? 0 : 1, 1)) && (n < 3 || hit == 2 || AT (hit < 2 ? 1 : 2, 2))), WHO ": the other elements keep link, order and data");
   POST (IMP (n == 1, head == NULL), WHO ": popping the only element leaves the empty list (NULL head)");
-  POST (IMP (n + extra == 1, list_pool == NULL && g_pool_frees == 1), WHO ": the pool is destroyed with its last element");
+  POST (IMP (n == 1 && extra == 0, list_pool == NULL && g_pool_frees == 1), WHO ": the pool is destroyed with its last element");
   if (n == 3) REACH ("popped-from-3"); if (n == 0) REACH ("empty"); if (n == 1 && extra == 0) REACH ("pool-destroyed");
 
 #elif VERIF_OP == 12                         /* clear */
